@@ -375,6 +375,32 @@ let handle (fields : string list) : string * string =
           then "fail:honest-client-not-authenticated"
           else "fail:ntlm-response-differs"
         end)
+  | "config" :: mech :: hostsel :: qk :: hosts :: flags :: lens :: envb :: _via :: impl :: [] ->
+    let ni s = n_of_int (int_of_string s) in
+    let l = Array.of_list (split_on ',' lens) in
+    let r = { r_openid = mech.[0] = '1'; r_kerberos = mech.[1] = '1'; r_local = mech.[2] = '1'; r_ntlm = mech.[3] = '1';
+              r_tls_disable = mech.[4] = '1'; r_hostsel = bytes_of_hex hostsel; r_querykey_len = ni qk; r_hosts = ni hosts;
+              r_keytab_set = flags.[0] = '1'; r_tokenauth = flags.[1] = '1'; r_enable_usertoken = flags.[2] = '1';
+              r_paa_enc_len = ni l.(0); r_paa_sign_len = ni l.(1); r_user_enc_len = ni l.(2);
+              r_session_len = ni l.(3); r_session_enc_len = ni l.(4) } in
+    let e = { e_idp_ok = envb.[0] = '1'; e_keytab_loadable = envb.[1] = '1'; e_krb5conf_ok = envb.[2] = '1' } in
+    let ks = function Configured -> "C" | Fresh0 -> "F" in
+    let m = (match Model.start r e with
+        | Fatal -> "fatal"
+        | Started k ->
+          (* the user-token key is only looked at (and logged) when user tokens are enabled *)
+          "started:" ^ ks k.k_paa_enc ^ ks k.k_paa_sign ^ ks k.k_user_enc ^ ks k.k_session ^ ks k.k_session_enc) in
+    (m, if m = impl then "ok"
+        else if String.length impl >= 7 && String.sub impl 0 7 = "started" && m = "fatal" then "fail:unsafe-configuration-started"
+        else if impl = "fatal" then "fail:safe-configuration-refused"
+        else "fail:key-substitution")
+  | "keyshare" :: len :: impl :: [] ->
+    (* five keys of the same configured length on two instances *)
+    let shared = (Model.subst_key (n_of_int (int_of_string len)) = Configured) in
+    let denied = int_of_n Model.e_PROXY_COOKIE_AUTHENTICATION_ACCESS_DENIED in
+    let m = Printf.sprintf "callback=302 connect=200 tokA_on_A=0 tokA_on_B=%d cookieA_on_B=%s"
+        (if shared then 0 else denied) (if shared then "file" else "nofile") in
+    (m, if m = impl then "ok" else "fail:keys-not-substituted-or-shared-across-instances")
   | k :: _ -> failwith ("unknown kind " ^ k)
   | [] -> failwith "empty line"
 
